@@ -24,7 +24,7 @@ EXPLANATION = (
 )
 ASSUMPTIONS = ["CPython ast parses /repo's source as the interpreter would",
                "Fragment subclasses and their behaviour-bearing fields are read from hdl/_ir.py and hdl/_mem.py on every run"]
-MIN_INSTANCES = {"R-03h": 5, "R-03g": 1, "R-03f": 2, "R-03a": 3, "R-03b": 4, "R-03c": 12, "R-03d": 12, "R-03e": 3}
+MIN_INSTANCES = {"R-03i": 2, "R-03h": 5, "R-03g": 1, "R-03f": 2, "R-03a": 3, "R-03b": 4, "R-03c": 12, "R-03d": 12, "R-03e": 3}
 
 
 def r03a(model, ctx):
@@ -708,4 +708,32 @@ def r18e_shared(model, ctx):
     c18.r18e(model, ctx)
 
 
-RULES = [("R-18e", r18e_shared), ("R-03h", r03h), ("R-03g", r03g), ("R-03f", r03f), ("R-03a", r03a), ("R-03b", r03b), ("R-03c", r03c), ("R-03d", r03d), ("R-03e", r03e)]
+
+def r03i(model, ctx):
+    """ResetInserter resets exactly the bits its domain drives: the whole-signal assignment is used only for the chunk that IS
+    the whole signal (start == 0 and stop is None, the way LHSMaskCollector.chunks reports it); every other chunk is reset
+    through the slice [start:stop] of the signal and of its init constant"""
+    R = "R-03i"
+    from ..engine.bitalg import conjuncts
+    f = model.func(f"{XFRM}::ResetInserter._insert_control")
+    ifs = [n for n in ast.walk(f) if isinstance(n, ast.If) and any(isinstance(x, ast.Call) and unparse(x.func) == "signal.eq"
+                                                                   for b in n.body for x in ast.walk(b))]
+    need(len(ifs) == 1, "ResetInserter._insert_control: the whole-signal / chunk split was not found")
+    test = ifs[0].test
+    parts = {unparse(c) for c in (test.values if isinstance(test, ast.BoolOp) and isinstance(test.op, ast.And) else [test])}
+    whole = {"start == 0", "stop is None"}
+    if parts != whole:
+        need(parts <= whole | {"stop == len(signal)", "stop is None or stop == len(signal)"} or parts < whole,
+             f"ResetInserter._insert_control: unrecognised whole-signal test `{unparse(test)}`")
+    ctx.check(whole <= parts, R, "ResetInserter._insert_control:whole-signal", "whole-signal reset only for start == 0 and stop is None",
+              f"the whole-signal reset is chosen under `{unparse(test)}`: a chunk that merely starts at bit 0 would reset the whole "
+              f"signal, bits driven from other domains included", f"{XFRM}:{ifs[0].lineno}")
+    sl = [unparse(x) for b in ifs[0].orelse for x in ast.walk(b) if isinstance(x, ast.Call) and unparse(x.func).endswith(".eq")]
+    ok = any("signal[start:stop].eq(Const(signal.init, signal.shape())[start:stop])" == t for t in sl)
+    if not ok:
+        need(sl, "ResetInserter._insert_control: the chunk reset was not found")
+    ctx.check(ok, R, "ResetInserter._insert_control:chunk", "signal[start:stop] <= init[start:stop]",
+              f"a partial chunk must be reset with the same slice of the init constant; found {sl}", f"{XFRM}:{ifs[0].lineno}")
+
+
+RULES = [("R-03i", r03i), ("R-18e", r18e_shared), ("R-03h", r03h), ("R-03g", r03g), ("R-03f", r03f), ("R-03a", r03a), ("R-03b", r03b), ("R-03c", r03c), ("R-03d", r03d), ("R-03e", r03e)]
